@@ -72,9 +72,16 @@ def cases(tier, variants):
         yield from F.convex_cases(n, variants, mc, extra=dict(part="final"))
 
 
-def trace_ours(f, g, x0, m, maxiter, bounds=None):
+def trace_ours(f, g, x0, m, maxiter, bounds=None, samebuf=False):
     from lbfgsb import minimize_lbfgsb
     ev, its = [], []
+    if samebuf:
+        # hostile-but-legal user: the gradient callable fills and returns one work array
+        g0_, buf = g, np.empty_like(np.asarray(x0, float))
+
+        def g(x):
+            buf[...] = g0_(x)
+            return buf
 
     def ff(x):
         ev.append(np.array(x, copy=True))
@@ -154,7 +161,8 @@ def run(case):
         if part == "trace" and case["sv"] % 2 == 1:
             bnds = np.array([[-np.inf, np.inf]] * x0.size)
         po, io, ro = trace_ours(f, g, x0, case["maxcor"], 12 if part == "trace" else 6,
-                                bounds=bnds)
+                                bounds=bnds,
+                                samebuf=(part == "trace" and case["sv"] == 2))
         ps, rs = trace_ref(f, g, x0, case["maxcor"], 12 if part == "trace" else 6)
         k, mis, dev = compare(po, io, ps, x0, g(x0))
         if mis:
